@@ -36,6 +36,11 @@ FRAGMENT_HISTORY = [
      "first_reasons_outside": {"call:ref": 374, "closure env with ref field": 300, "node:tuple": 218,
                                "callee outside": 209, "ref parameter": 138, "tuple result": 128, "node:array": 108,
                                "tuple parameter": 95, "array parameter": 83, "array result": 79}},
+    {"stage": "+ Ref (ref / ref_get / ref_set, Ref parameters, closure environments capturing Refs): store against heap",
+     "inside": 4372, "functions": 6150,
+     "first_reasons_outside": {"node:tuple": 390, "callee outside": 307, "node:array": 145, "tuple result": 133,
+                               "tuple parameter": 97, "array parameter": 85, "array result": 83, "vec parameter": 77,
+                               "node:to-dyn": 70, "vec result": 70, "call:vec_new": 55, "func parameter": 54}},
 ]
 
 
